@@ -293,17 +293,91 @@ fn chunked_variants(ctx: &mut Ctx, rs: &RefSpec, doc: &Vec<crate::refmodel::Node
     }
 }
 
+/// Documents in which the tag behind the junk is larger than the initial capacity (recovery has to accept a tag
+/// whose payload is not in the buffer yet, and the buffer then grows for it).
+fn grown_buffer_variants(ctx: &mut Ctx, rs: &RefSpec) {
+    for (i, doc) in docs::grown_buffer_docs().into_iter().enumerate() {
+        if !ctx.mine(i as u64) || docs::doc_has_raw(&doc) || gen::has_ambiguous_global_after_unknown(rs, &doc) {
+            continue;
+        }
+        let (bytes, lay) = ref_encode(&doc);
+        let flat = flatten(&doc, &lay);
+        let flat_ex = flatten_ex(&doc, &lay);
+        for (li, l) in lay.iter().enumerate() {
+            let b = l.tag_start;
+            let enclosing: Vec<&Lay> = lay.iter().filter(|k| k.is_master && !k.unknown && k.data_start <= b && b < k.end).collect();
+            let mut seen = 0;
+            let mut fi = 0;
+            for (k, (it, _)) in flat.iter().enumerate() {
+                if !it.is_end() {
+                    if seen == li {
+                        fi = k;
+                        break;
+                    }
+                    seen += 1;
+                }
+            }
+            let mut deferred = 0;
+            while deferred < fi && flat_ex[fi - 1 - deferred].0.is_end() && lay[flat_ex[fi - 1 - deferred].2].unknown {
+                deferred += 1;
+            }
+            for junk in [vec![0x00u8], vec![0x00, 0x02, 0x05], vec![0x0f; 9]] {
+                let j = junk.len();
+                if !enclosing.iter().all(|k| l.end + j <= k.end) {
+                    continue;
+                }
+                let mut input = Vec::with_capacity(bytes.len() + j);
+                input.extend_from_slice(&bytes[..b]);
+                input.extend_from_slice(&junk);
+                input.extend_from_slice(&bytes[b..]);
+                let want_before = &flat[..fi - deferred];
+                let want_after: Vec<(NItem, usize)> = flat[fi - deferred..].iter().map(|(it, o)| (it.clone(), if *o >= b { *o + j } else { *o })).collect();
+                for cap in [Some(0usize), Some(16), Some(24), Some(40), None] {
+                    let cfg = Cfg::strict().with_cap(cap);
+                    let d = || format!("grown-buffer doc=[{}] bytes={} junk={} inserted at {} cap={:?}", docs::doc_short(rs, &doc), hex(&bytes), hex(&junk), b, cap);
+                    if !ctx.enter(&d) {
+                        continue;
+                    }
+                    ctx.nontrivial();
+                    ctx.count("junk_in_front_of_a_tag_larger_than_the_buffer", 1);
+                    match run_with_recovery(&input, &cfg) {
+                        Err((k, det)) => ctx.violation(&format!("grown-buffer/{}", k), &d, &det),
+                        Ok(r) => {
+                            ctx.transitions += r.calls;
+                            let bad = if r.before[..] != want_before[..] {
+                                Some("grown-buffer/items-before-the-junk-differ")
+                            } else if r.errors.len() != 1 || r.recover.is_err() || r.tail != "None" {
+                                Some("grown-buffer/not-exactly-one-error-and-a-successful-recovery")
+                            } else if r.after != want_after {
+                                Some("grown-buffer/items-after-recovery-differ-from-undamaged-document")
+                            } else {
+                                None
+                            };
+                            if let Some(k) = bad {
+                                ctx.violation(k, &d, &format!("input={} | before [{}] errors {:?} recover {:?} after [{}] tail {}", hex(&input), r.before.iter().map(|(i, o)| format!("{}@{}", i.short(), o)).collect::<Vec<_>>().join(" "), r.errors.iter().map(|e| e.short()).collect::<Vec<_>>(), r.recover.as_ref().map_err(|e| e.short()), r.after.iter().map(|(i, o)| format!("{}@{}", i.short(), o)).collect::<Vec<_>>().join(" "), r.tail));
+                            }
+                        }
+                    }
+                    ctx.validated += 1;
+                    ctx.leave();
+                }
+            }
+        }
+    }
+}
+
 pub fn run(ctx: &mut Ctx) {
     let rs = v_refspec();
     crate::spec::assert_spec_matches::<V>(&rs);
     let max_junk = ctx.tier.pick(6, 10);
     let p = DocParams { max_nodes: ctx.tier.pick(5, 6), globals: vec![ID_TAG, ID_VOID], exclude: vec![], unknown_subsets: true, devs: 0, payload_classes: false, big_payloads: false, noncanonical: false, width_devs: false, extras: true, all_widths: false };
-    ctx.meta("rule", "cases: (known-size document, tag boundary b (not the end), junk run, capacity); junk runs = every string up to length 3 over {00, 02, 05, 0f} (bytes that cannot begin any id of V whatever follows: zero byte, 7-, 6- and 5-byte markers) plus structured runs up to the length bound; inserted without adjusting any size field. Independent precondition: following tag's extent + junk length still inside every enclosing known-size master's declared range. If it holds: items before the junk == reference flatten prefix, exactly one error, try_recover() Ok, remaining items == undamaged flatten with offsets >= b shifted by the junk length, clean end. With one master id buffered (junk lengths 1, 2, 5; insertion points not inside, and not directly behind a still open, master of that id): the same with complete buffered masters as Full items before and after the junk. Documents of <= 3 elements additionally with junk runs of 16-40 bytes (zeros, mixed, zero-tailed) over a source whose reads end at / one before / one after the first and the last junk byte, and with 1-byte reads, capacities {default,16,64}. Always: no panic, try_recover fails only with UnexpectedEOF/ReadError, offsets never move backwards across a recovery. Non-trivial: insertions inside >= 1 known-size master with the precondition true.");
+    ctx.meta("rule", "cases: (known-size document, tag boundary b (not the end), junk run, capacity); junk runs = every string up to length 3 over {00, 02, 05, 0f} (bytes that cannot begin any id of V whatever follows: zero byte, 7-, 6- and 5-byte markers) plus structured runs up to the length bound; inserted without adjusting any size field. Independent precondition: following tag's extent + junk length still inside every enclosing known-size master's declared range. If it holds: items before the junk == reference flatten prefix, exactly one error, try_recover() Ok, remaining items == undamaged flatten with offsets >= b shifted by the junk length, clean end. With one master id buffered (junk lengths 1, 2, 5; insertion points not inside, and not directly behind a still open, master of that id): the same with complete buffered masters as Full items before and after the junk. Documents of <= 3 elements additionally with junk runs of 16-40 bytes (zeros, mixed, zero-tailed) over a source whose reads end at / one before / one after the first and the last junk byte, and with 1-byte reads, capacities {default,16,64}. Documents with a 20-45-byte payload (larger than the initial capacity) with junk at every boundary, capacities {0,16,24,40,default}. Always: no panic, try_recover fails only with UnexpectedEOF/ReadError, offsets never move backwards across a recovery. Non-trivial: insertions inside >= 1 known-size master with the precondition true.");
     ctx.meta("bounds", &format!("documents <= {} elements (+ spines), every boundary, junk length <= {}, capacities {{default,16}}, tolerance {{none, oversized, hierarchy+oversized}}", p.max_nodes, max_junk));
     ctx.meta("assumptions", "the unconditional clause for arbitrary byte streams and call histories is exercised by C05's history sweep");
-    for c in ["unknown_size_ends_deferred_past_the_junk", "precondition_true_inside_known_master", "precondition_true_root_level", "precondition_false", "buffered_master_after_the_junk", "junk_directly_behind_a_buffered_master", "long_junk_across_read_boundaries"] {
+    for c in ["unknown_size_ends_deferred_past_the_junk", "precondition_true_inside_known_master", "precondition_true_root_level", "precondition_false", "buffered_master_after_the_junk", "junk_directly_behind_a_buffered_master", "long_junk_across_read_boundaries", "junk_in_front_of_a_tag_larger_than_the_buffer"] {
         ctx.expect_nonzero(c);
     }
+    grown_buffer_variants(ctx, &rs);
     let junks = junk_runs(max_junk);
     docs::for_each_doc(ctx, &rs, &p, &mut |ctx, doc| {
         let (bytes, lay) = ref_encode(doc);
